@@ -65,11 +65,34 @@ KNOWN_PRIVATE_METHODS = {
 }
 
 
+def _strip_bare_returns(body: List[ast.stmt]) -> List[ast.stmt]:
+    """A procedure's bare `return`s in tail position (after the guard-clause form was turned into if/else) are dropped."""
+    if not body:
+        return body
+    out = list(body[:-1])
+    last = body[-1]
+    if isinstance(last, ast.Return) and last.value is None:
+        pass
+    elif isinstance(last, ast.If):
+        b_, o_ = _strip_bare_returns(last.body), _strip_bare_returns(last.orelse)
+        out.append(ast.copy_location(ast.If(test=last.test, body=b_ or [ast.copy_location(ast.Pass(), last)], orelse=o_), last))
+    else:
+        out.append(last)
+    return out
+
+
 def _body(fn: ast.FunctionDef) -> List[ast.stmt]:
     b = list(fn.body)
     if b and isinstance(b[0], ast.Expr) and isinstance(b[0].value, ast.Constant) and isinstance(b[0].value.value, str):
         b = b[1:]
-    return _normalise_tail(b)
+    b = _normalise_tail(b)
+    rets = [n for st in b for n in ast.walk(st) if isinstance(n, ast.Return)]
+    if rets and all(r.value is None for r in rets):
+        # a procedure with early exits: `if c: A; return` + rest  ->  `if c: A else: rest`
+        stripped = _strip_bare_returns(b)
+        if not any(isinstance(n, ast.Return) for st in stripped for n in ast.walk(st)):
+            return stripped or [ast.Pass()]
+    return b
 
 
 def _ends_in_return(body: List[ast.stmt]) -> bool:
@@ -149,7 +172,7 @@ def _simple_helper(fn: ast.FunctionDef) -> Optional[str]:
         if isinstance(n, ast.Call) and isinstance(n.func, ast.Attribute) and n.func.attr == fn.name and \
                 isinstance(n.func.value, ast.Name) and n.func.value.id == "self":
             return None
-    if b and not any(isinstance(n, ast.Return) for n in ast.walk(fn)):
+    if b and not any(isinstance(n, ast.Return) for st_ in b for n in ast.walk(st_)):
         return "proc"  # a procedure: expanded where it is called as a statement
     if not _tail_ok(b):
         return None
